@@ -6,6 +6,7 @@ subclass turns ``is_killed`` into a property that counts reads of the loop condi
 every call of the *real* ``run()`` executes exactly one pass of the loop, whatever the body does.
 """
 import collections
+import socket as _socket
 import time as _time
 import types
 
@@ -33,16 +34,50 @@ class RecQueue(queue.Queue):
 
 class FakeSocket(object):
     fail_send = False
+    stalled = False          # the peer has stopped reading for a while: a blocking send just takes longer
+    STALL_SECONDS = 30
 
     def __init__(self):
         self.inbox = collections.deque()  # items: bytes | 'EOF' | 'ERR'
         self.sent = []
         self.closed = False
+        self.timeout = None               # blocking, as a new socket is
+        self.was_reset = False
+        self.shut = False
         self.connected = None
         self.recv_sizes = []
 
     def fileno(self):
         return 99
+
+    # the rest of the socket API a library may legitimately use
+    def settimeout(self, t):
+        self.timeout = t
+
+    def gettimeout(self):
+        return self.timeout
+
+    def setblocking(self, flag):
+        self.timeout = None if flag else 0.0
+
+    def setsockopt(self, *a):
+        pass
+
+    def getsockopt(self, *a):
+        return 0
+
+    def getpeername(self):
+        return self.connected or ('127.0.0.1', 104)
+
+    def getsockname(self):
+        return ('127.0.0.1', 50000)
+
+    def shutdown(self, how):
+        if self.closed:
+            raise OSError(9, 'Bad file descriptor')
+        if self.was_reset:
+            raise OSError(107, 'Transport endpoint is not connected')    # what shutdown() says after an RST
+        self.shut = True
 
     def feed(self, item):
         self.inbox.append(item)
@@ -55,6 +90,11 @@ class FakeSocket(object):
         if self.closed:
             raise OSError('recv on closed socket')
         if not self.inbox:
+            if self.shut:
+                return b''
+            if self.timeout is not None:
+                Clock.now += self.timeout
+                raise _socket.timeout('timed out')
             raise WouldBlockForever('recv(%d) with nothing to read' % n)
         x = self.inbox[0]
         if callable(x):
@@ -64,7 +104,8 @@ class FakeSocket(object):
             return b''
         if x == 'ERR':
             self.inbox.popleft()
-            raise OSError('connection reset')
+            self.was_reset = True
+            raise OSError(104, 'Connection reset by peer')
         if n <= 0:
             return b''
         if len(x) <= n:
@@ -76,8 +117,14 @@ class FakeSocket(object):
     def sendall(self, b):
         if self.closed:
             raise OSError('send on closed socket')
-        if self.fail_send:
+        if self.fail_send or self.shut:
             raise OSError(32, 'Broken pipe')
+        if self.stalled:
+            # the peer is not reading: a blocking socket waits, a socket with a timeout gives up
+            if self.timeout is not None and self.timeout < self.STALL_SECONDS:
+                Clock.now += self.timeout
+                raise _socket.timeout('timed out')
+            Clock.now += 0       # (the wait itself is not charged to the ARTIM clock: the peer is alive)
         self.sent.append(bytes(b))
         LOG.append(('send', bytes(b)))
 
@@ -122,10 +169,31 @@ def fake_select(r, w, x, timeout=None):
 LAST = {}
 
 
-def _mk_socket(*a):
+def _mk_socket(*a, **k):
     s = FakeSocket()
     LAST['sock'] = s
     return s
+
+
+class _SocketModule(object):
+    """the socket module as the library sees it: the real constants and exception classes, simulated sockets"""
+
+    def __init__(self, real):
+        self._real = real
+        self.error = OSError
+
+    def socket(self, *a, **k):
+        return _mk_socket()
+
+    def create_connection(self, address, timeout=_socket._GLOBAL_DEFAULT_TIMEOUT, source_address=None, **k):
+        s = _mk_socket()
+        if timeout is not _socket._GLOBAL_DEFAULT_TIMEOUT:
+            s.settimeout(timeout)
+        s.connect(address)
+        return s
+
+    def __getattr__(self, name):
+        return getattr(self._real, name)
 
 
 _real = {}
@@ -140,8 +208,7 @@ def install():
     _real['socket'] = fsm.socket
     dulprovider.select = types.SimpleNamespace(select=fake_select)
     dulprovider.time = Clock
-    fsm.socket = types.SimpleNamespace(socket=_mk_socket, AF_INET=2, SOCK_STREAM=1,
-                                       error=OSError)
+    fsm.socket = _SocketModule(_socket)
     Clock.now = 1000.0
 
 
